@@ -2,8 +2,9 @@
 
 A tree node is (label, kids, raises).  Calling the root realises exactly that dynamic call tree:
 each function binds p, calls its kids in order through the un-instrumented helper CALL (which
-records the activation and absorbs the ERR raised by a raising node), optionally raises, binds q.
-Node ids are assigned in call (pre-)order; values are unique: p = 10*id, q = 10*id + 1.
+records the activation and absorbs the ERR raised by a raising node), optionally raises, binds q,
+then binds p a second time (so a focus variable is bound before and after the nested calls).
+Node ids are assigned in call (pre-)order; values are unique: p = 10*id then 10*id + 2, q = 10*id + 1.
 """
 import itertools
 
@@ -19,8 +20,8 @@ class Node:
     def __init__(self, id, label, kids, raises):
         self.id, self.label, self.kids, self.raises = id, label, kids, raises
 
-def BIND(node, var):
-    val = node.id * 10 + (0 if var == "p" else 1)
+def BIND(node, var, k=0):
+    val = node.id * 10 + (k if var == "p" else 1)
     TRACE.append(("bind", node.id, var, val))
     return val
 
@@ -40,6 +41,7 @@ def A(node):
     if node.raises:
         raise ERR(node.id)
     q = BIND(node, "q")
+    p = BIND(node, "p", 2)
     return q
 
 def B(node):
@@ -49,6 +51,7 @@ def B(node):
     if node.raises:
         raise ERR(node.id)
     q = BIND(node, "q")
+    p = BIND(node, "p", 2)
     return q
 
 def C(node):
@@ -58,6 +61,7 @@ def C(node):
     if node.raises:
         raise ERR(node.id)
     q = BIND(node, "q")
+    p = BIND(node, "p", 2)
     return q
 
 FUNCS = {"A": A, "B": B, "C": C}
@@ -167,6 +171,7 @@ def static_trace(tree):
             out.append(("exit", i, "raise"))
         else:
             out.append(("bind", i, "q", i * 10 + 1))
+            out.append(("bind", i, "p", i * 10 + 2))
             out.append(("exit", i, "return"))
 
     rec(sh, None)
